@@ -139,10 +139,11 @@ func genMsg(r *core.RNG, machine string) PMsg {
 		m.Text = []string{"insert your key", "50% done %s"}[r.Intn(2)]
 	case c < 12:
 		m.Kind = "reqsecret"
-		m.Text = "PIN:"
+		// the answer is "answer to "+text: lengths 14, 47, 48, 49, 96 (body lines exactly full or not)
+		m.Text = []string{"PIN:", "PIN:", strings.Repeat("k", 37), strings.Repeat("k", 38), strings.Repeat("k", 39), strings.Repeat("k", 86)}[r.Intn(6)]
 	case c < 13:
 		m.Kind = "reqpublic"
-		m.Text = "slot?"
+		m.Text = []string{"slot?", "slot?", strings.Repeat("s", 38), strings.Repeat("s", 86), strings.Repeat("s", 134)}[r.Intn(5)]
 	case c < 15:
 		m.Kind = "confirm"
 		m.Text = "proceed?"
